@@ -2,6 +2,7 @@ import Amgcl.Proofs.InverseMatrix
 import Amgcl.Proofs.SkylineMatrix
 import Amgcl.Proofs.SkylineCrout
 import Amgcl.Proofs.DenseCheck
+import Amgcl.Proofs.C16Examples
 import Mathlib.Algebra.Order.Field.Rat
 import Mathlib.LinearAlgebra.Matrix.Determinant.Basic
 import Mathlib.Tactic.NormNum
@@ -10,7 +11,8 @@ import Mathlib.Tactic.FinCases
 # C16 — direct and dense kernels are exact: skyline LU, small inverse, static matrices; checkers for QR and reordering
 
 Only property theorems live here (helper lemmas: `Amgcl/Proofs/{StaticMatrix,Perm,Array2,InverseLU,InverseAlg,
-InversePhase1,InverseSolve,InverseMatrix,SkylineSolve,SkylineBuild,SkylineFactor,SkylineCrout,SkylineMatrix,DenseCheck}.lean`).
+InversePhase1,InverseSolve,InverseMatrix,SkylineSolve,SkylineBuild,SkylineFactor,SkylineGeom,SkylineCroutAlg,SkylineCrout,
+SkylineMatrix,DenseCheck,C16Examples}.lean`; the last one holds the concrete data of the non-vacuity `example`s).
 Models: `Model/{SkylineLU,Inverse,StaticMatrix,DenseCheck}.lean`, tied to the real templates by `harness/h_direct.cpp`.
 
 * **`detail::inverse`** — `inverse_spec`: for every `n` and every nonsingular `n×n` matrix over a linearly ordered field,
@@ -38,7 +40,7 @@ What is **not** proved here (see `tools/checks/C16.json`, open items): that the 
 skyline LU (correspondence only), IEEE rounding.
 -/
 namespace Amgcl.C16
-open Amgcl Amgcl.Skyline
+open Amgcl Amgcl.Skyline Amgcl.C16Ex
 
 /-! ## static_matrix arithmetic = Mathlib `Matrix` arithmetic -/
 section staticMatrix
@@ -142,12 +144,19 @@ theorem inverse_spec_entrywise (n : Nat) (A t : Array K) (p : Array Nat) (hA : A
     ∑ j ∈ Finset.range n, get2 n A r j * get2 n (inverse n A t p).1 j k = if r = k then 1 else 0 :=
   inverse_right_inv A t p hA ht hp hns r k hr hk
 
+/-- non-vacuity: `[[0,1],[2,3]]` needs a row exchange; workspaces with arbitrary content -/
+example : matOf 2 (#[0, 1, 2, 3] : Array ℚ) * matOf 2 (inverse 2 (#[0, 1, 2, 3] : Array ℚ) #[7, 7, 7, 7] #[5, 5]).1 = 1 :=
+  inverse_spec 2 _ _ _ rfl rfl rfl ex_det
+
 /-- `math::inverse` of a square static matrix -/
 theorem sm_inverse_spec {N : Nat} (a : SMat K N N) (ha : a.WF) (hdet : a.toMatrix.det ≠ 0) :
     a.toMatrix * (SMat.inverse a).toMatrix = 1 := by
   have := inverse_mul_eq_one N a.buf (Array.replicate (N * N) 0) (Array.replicate N 0) ha (by simp) (by simp)
     (by rw [← smat_toMatrix_eq_matOf]; exact hdet)
   exact this
+
+example : (⟨#[0, 1, 2, 3]⟩ : SMat ℚ 2 2).toMatrix * (SMat.inverse (⟨#[0, 1, 2, 3]⟩ : SMat ℚ 2 2)).toMatrix = 1 :=
+  sm_inverse_spec _ rfl ex_det
 
 end inverse
 
@@ -161,6 +170,10 @@ theorem skyline_solve_spec {K : Type} [Field K] (S : Skyline K K) (A : Matrix (F
     (hD : ∀ i, i < S.n → Dd S i ≠ 0) (hfac : A.submatrix hp.equiv hp.equiv = Lmat S * Umat S) :
     A.mulVec (vecOf S.n (solve S rhs x).1) = vecOf S.n rhs :=
   solve_spec_matrix S A rhs x hwf hp hy hx hD hfac
+
+/-- non-vacuity: the factorised storage of `[[3,1],[1,2]]` -/
+example : (!![3, 1; 1, 2] : Matrix (Fin 2) (Fin 2) ℚ).mulVec (vecOf exFac.n (solve exFac #[1, 2] #[9, 9]).1) = vecOf exFac.n #[1, 2] :=
+  skyline_solve_spec exFac _ #[1, 2] #[9, 9] exFac_wf ex_perm rfl rfl exFac_D exFac_identity
 
 /-- **Crout on the dense embedding** (`skyline_factorize_partial` of the plan, proved in full for the factorisation
 loop): if `factorize()` ends in `ok` on a well-formed storage, the new factors reproduce the dense embedding of the old
@@ -176,6 +189,10 @@ theorem skyline_factorize_spec {K : Type} [Field K] [DecidableEq K] (S S' : Skyl
 theorem skyline_build_storage {K : Type} [Field K] [DecidableEq K] (A : CRS K) (perm : Array Nat) :
     (build (R := K) (fun v => decide (v = 0)) A perm).StorageWF := build_storage A perm
 
+/-- non-vacuity: `factorize()` on the raw storage of `[[3,1],[1,2]]` ends in `ok` -/
+example : ∀ i j, i < 2 → j < 2 → Emb exRaw i j = ∑ m ∈ Finset.range 2, Lt exFac i m * Ut exFac m j :=
+  (skyline_factorize_spec exRaw exFac exRaw_storage ex_factorize (by decide)).2.2.2
+
 /-- constructor + factorisation + solve: if the raw storage written by the constructor embeds `P A Pᵀ`, the first
 call of `operator()` solves `A x = b`. -/
 theorem skyline_construct_solve_spec {K : Type} [Field K] [DecidableEq K] (A : CRS K) (perm : Array Nat)
@@ -187,6 +204,11 @@ theorem skyline_construct_solve_spec {K : Type} [Field K] [DecidableEq K] (A : C
     (rhs x : Array K) (hx : x.size = A.nrows) :
     ∀ r, r < A.nrows → ∑ c ∈ Finset.range A.nrows, Ad r c * (solve S rhs x).1.getD c 0 = rhs.getD r 0 :=
   construct_solve_spec A perm S hn hp h Ad hemb rhs x hx
+
+/-- non-vacuity: CRS `[[3,1],[1,2]]` with an unsorted row, identity ordering -/
+example : ∀ r, r < 2 → ∑ c ∈ Finset.range 2, exDense r c * (solve exFac #[1, 2] #[9, 9]).1.getD c 0 = (#[1, 2] : Array ℚ).getD r 0 :=
+  skyline_construct_solve_spec exA #[0, 1] exFac (by decide) ex_perm (by rw [ex_build]; exact ex_factorize) exDense
+    (by rw [ex_build]; exact ex_emb) #[1, 2] #[9, 9] rfl
 
 section anyCarrier
 variable {V R : Type} [Zero V] [Zero R] [Mul V] [Sub V] [Sub R] [HMul V R R]
@@ -237,6 +259,17 @@ theorem skyline_factorize_frame (isZero : V → Bool) (inv : V → V) (S S' : Sk
   ⟨wfProfile_of_sameFrame (sameFrame_factorize h) hwf, sameFrame_factorize h⟩
 
 end anyCarrier
+
+/-- non-vacuity: `[[1,1],[1,1]]` — the second pivot candidate `1 − 1·1` vanishes -/
+example : factorize (fun v : ℚ => decide (v = 0)) (fun v => 1 / v) exSing = .precondition :=
+  skyline_zero_pivot _ _ exSing _ 0 (by decide) (by simp) rfl exSing_pivot
+
+example : solve { exFac with y := (#[5, 7] : Array ℚ) } (#[1, 2] : Array ℚ) #[9, 9]
+    = solve { exFac with y := (#[0, 0] : Array ℚ) } #[1, 2] #[9, 9] :=
+  skyline_out_indep_scratch exFac #[1, 2] #[9, 9] #[5, 7] #[0, 0] exFac_wf rfl rfl
+
+example := skyline_ok_pivots_nonzero _ _ exRaw exFac ex_factorize
+
 end skyline
 
 /-! ## V-grade checkers -/
@@ -255,6 +288,7 @@ theorem qr_exact_sound {K : Type} [Field K] [LinearOrder K] [DecidableEq K] (A Q
   let ⟨_, _, _, _, h5, h6, h7⟩ := Dense.qrExact_sound A Qk R h
   ⟨h5, h6, h7⟩
 
+example := qr_exact_sound _ _ _ ex_qr
 example : isPermB 4 #[2, 0, 3, 1] = true := by decide
 example : isPermB 3 #[2, 0, 2] = false := by decide
 
